@@ -240,3 +240,23 @@ class Opaque:
 
     def __repr__(self):
         return f'Opaque<{self.what}>'
+
+
+class PvObject:
+    """Base class of library models implemented in Python (e.g. the pandas model): the interpreter delegates attribute
+    access, subscripts, arithmetic, comparison and len() to the pv_* methods."""
+
+    def pv_getattr(self, interp, name):
+        raise OutOfSubset(f'attribute {name} of {type(self).__name__}')
+
+    def pv_getitem(self, interp, idx):
+        raise OutOfSubset(f'subscript of {type(self).__name__}')
+
+    def pv_binop(self, interp, op, other, reflected):
+        raise OutOfSubset(f'operator {op} on {type(self).__name__}')
+
+    def pv_compare(self, interp, op, other, reflected):
+        raise OutOfSubset(f'comparison {op} on {type(self).__name__}')
+
+    def pv_len(self, interp):
+        raise OutOfSubset(f'len of {type(self).__name__}')
